@@ -20,7 +20,10 @@ def cases(draw, closed_only, allow_verify):
     case = {
         "trees": trees,
         "loose": loose,
-        "src_kind": draw(st.sampled_from(["local", "generic", "staging"])),
+        # refdb: one hand-filled reference store whose objects sit on several filesystem OBJECTS (the
+        # workspace fs, further local fs instances, memfs) - uploads are grouped per filesystem object
+        "src_kind": draw(st.sampled_from(["local", "generic", "staging", "refdb"])),
+        "ref_fs": draw(st.lists(st.integers(0, 3), min_size=1, max_size=8)),
         "dst_kind": draw(st.sampled_from(["local", "generic"])),
         # which top-level objects (trees first, then loose) are requested / pre-delivered (closed)
         "request": sorted(draw(st.sets(st.integers(0, nobj - 1), min_size=1))),
@@ -91,7 +94,7 @@ def execute(case, ctx, d, monitor_closure=True):  # noqa: C901, PLR0912, PLR0915
         dkw["tmp_dir"] = os.path.join(d, "idx")
         os.makedirs(dkw["tmp_dir"], exist_ok=True)
     dst = ops.make_odb(case["dst_kind"], dst_root, **dkw)
-    via_push = case.get("via") in ("push", "fetch") and case["src_kind"] != "staging"
+    via_push = case.get("via") in ("push", "fetch") and case["src_kind"] not in ("staging", "refdb")
     via_fetch = via_push and case.get("via") == "fetch"
     if via_fetch and case["index"]:
         # index-level fetch keeps an index of the *source* (the remote) under its tmp_dir
@@ -99,7 +102,8 @@ def execute(case, ctx, d, monitor_closure=True):  # noqa: C901, PLR0912, PLR0915
         os.makedirs(skw["tmp_dir"], exist_ok=True)
         dkw.pop("tmp_dir", None)
         dst = ops.make_odb(case["dst_kind"], dst_root, **dkw)
-    staging_mode = case["src_kind"] == "staging"
+    refdb_mode = case["src_kind"] == "refdb"
+    staging_mode = case["src_kind"] in ("staging", "refdb")
     src = None if staging_mode else ops.make_odb(case["src_kind"], src_root, **skw)
 
     # ---- materialise + reference manifests -------------------------------------------------
@@ -127,7 +131,41 @@ def execute(case, ctx, d, monitor_closure=True):  # noqa: C901, PLR0912, PLR0915
 
     # ---- source ----------------------------------------------------------------------------
     stagings = []
-    if staging_mode:
+    if refdb_mode:
+        from dvc_objects.fs import MemoryFileSystem
+
+        from dvc_data.hashfile.db.reference import ReferenceHashFileDB
+
+        memfs = MemoryFileSystem()  # global memfs, reset by ctx.tmpdir()
+        base = "memory://vd-refdb"
+        src = ReferenceHashFileDB(memfs, base + "/odb", hash_name="md5")
+        pool = [fs, LocalFileSystem(), LocalFileSystem()]
+        picks = case.get("ref_fs") or [0]
+        n = 0
+
+        def ref_add(path, data, oid):
+            nonlocal n
+            k = picks[n % len(picks)]
+            n += 1
+            if k == 3:
+                mp = f"{base}/files/{n}"
+                memfs.pipe_file(mp, data)
+                src.add(mp, memfs, oid)
+            else:
+                src.add(path, pool[k], oid)
+
+        for t in tops:
+            if t["isdir"]:
+                flat = gen.flatten_case(case["trees"][tops.index(t)])
+                for rel in sorted(flat):
+                    ref_add(os.path.join(t["path"], *rel.split("/")), flat[rel], t["manifest"][rel])
+                mp = f"{base}/dirs/{t['oid']}"
+                memfs.pipe_file(mp, t["listing"])
+                src.add(mp, memfs, t["oid"])
+            else:
+                ref_add(t["path"], t["data"], t["oid"])
+        o.ref_groups = len({id(src.get(x).fs) for x in all_ids})
+    elif staging_mode:
         # one staging area per destination store: build every top-level object against dst
         for t in tops:
             staging, _, obj = build(dst, t["path"], fs, "md5")
@@ -191,7 +229,7 @@ def execute(case, ctx, d, monitor_closure=True):  # noqa: C901, PLR0912, PLR0915
 
     # ---- request ----------------------------------------------------------------------------
     req_tops = [tops[i % len(tops)] for i in case["request"]]
-    if staging_mode:
+    if staging_mode and not refdb_mode:
         # a staging area knows the objects of one build only (as `dvc add` uses it)
         req_tops = req_tops[:1]
         src = stagings[tops.index(req_tops[0])]
@@ -233,6 +271,22 @@ def execute(case, ctx, d, monitor_closure=True):  # noqa: C901, PLR0912, PLR0915
     fail = {moving[i % len(moving)] for i in case["fail"]}
     o.fail = fail
     o.closure_breaks = []
+    o.vanished = set()
+    if refdb_mode:
+        # referenced files that are gone by the time of the upload: the reference store still lists them
+        for i in list(case.get("vanish") or []) + list(case.get("src_missing") or []):
+            oid = moving[i % len(moving)]
+            if oid.endswith(".dir") or oid in o.vanished:
+                continue
+            obj = src.get(oid)
+            if obj.fs is memfs:
+                # not vanished: a failed download from a non-local filesystem escapes dvc_objects'
+                # generic._get (as_atomic renames a temp file that was never created) - a defect of the
+                # dependency, outside iterative/dvc-data (DESIGN 9.5)
+                continue
+            if obj.fs.exists(obj.path):
+                obj.fs.rm_file(obj.path)
+                o.vanished.add(oid)
 
     def monitor(_root, oid):
         if not monitor_closure:
@@ -265,8 +319,6 @@ def execute(case, ctx, d, monitor_closure=True):  # noqa: C901, PLR0912, PLR0915
         idx.storage_map.add_remote(ObjectStorage((), dst))
         data = collect([idx], "remote", push=True)
         return push(data, jobs=case["jobs"])
-
-    o.vanished = set()
 
     def vanish_hook(_status):
         # TOCTOU: the objects are in the source when status runs and gone when the upload starts
@@ -337,6 +389,8 @@ def classes_of(case, o):
     cl = [f"src={case['src_kind']}", f"dst={case['dst_kind']}", f"form={case['form']}"]
     if case["index"]:
         cl.append("dest-index")
+    if getattr(o, "ref_groups", 0) >= 2:
+        cl.append("source-on->=2-filesystem-objects")
     if o.inj.faulted:
         cl.append("fault-hit")
     if o.inj.aborted:
